@@ -6,6 +6,7 @@ import (
 	"fmt"
 	"math/big"
 	"math/rand/v2"
+	"strings"
 	"testing/synctest"
 	"time"
 
@@ -48,7 +49,7 @@ func genC19(tier string, seed uint64, run int) *Scenario {
 	case tier == "thorough" && run%397 == 0:
 		bits = 1024
 	}
-	fault := []string{"none", "none", "cancel", "entropy-error", "deadline", "cancel-before-start"}[r.IntN(6)]
+	fault := []string{"none", "none", "cancel", "entropy-error", "entropy-dead", "deadline", "cancel-before-start"}[r.IntN(7)]
 	p := map[string]interface{}{"bits": bits, "num": 1 + r.IntN(3), "conc": 1 + r.IntN(8), "fault": fault, "at": 1 + r.IntN(40)}
 	return &Scenario{Check: "C19", Kind: "primes", Seed: seed, Run: run, P: p}
 }
@@ -71,12 +72,17 @@ func drivePrimes(rc *RunCtx) {
 		cancel()
 	}
 	fired := false
+	dead := false
 	firedAt := 0
 	returned := false
 	readsAfterReturn := 0
 	st.BeforeRelease = func(ord int, d *DRBG) {
 		if returned {
 			readsAfterReturn++
+		}
+		if dead {
+			d.FailAt, d.Err = d.Reads+1, errEntropy
+			return
 		}
 		if fired || ord != at {
 			return
@@ -90,6 +96,12 @@ func drivePrimes(rc *RunCtx) {
 			fired, firedAt = true, ord
 			d.FailAt, d.Err = d.Reads+1, errEntropy
 			log = append(log, fmt.Sprintf("read %d: entropy source fails", ord))
+		case "entropy-dead":
+			// the source breaks and stays broken: every worker that reads from now on gets the error
+			dead = true
+			fired, firedAt = true, ord
+			d.FailAt, d.Err = d.Reads+1, errEntropy
+			log = append(log, fmt.Sprintf("read %d: entropy source fails for good", ord))
 		case "deadline":
 			fired, firedAt = true, ord
 			time.Sleep(6 * time.Minute) // everyone else is parked: the fake clock jumps past the deadline
@@ -133,7 +145,7 @@ func drivePrimes(rc *RunCtx) {
 			}
 			rc.Res.Probes["fault_after_completion"]++
 		} else {
-			if fault == "entropy-error" && !errors.Is(err, errEntropy) && err != common.ErrGeneratorCancelled {
+			if strings.HasPrefix(fault, "entropy-") && !errors.Is(err, errEntropy) && err != common.ErrGeneratorCancelled {
 				rc.Fail("wrong-error", "%s: entropy failure surfaced as %v", key, err)
 				return
 			}
